@@ -6,7 +6,7 @@ for n in "$@"; do
   prop=$(echo $n | cut -d- -f1)
   if [ -n "$(git -C /repo status --porcelain)" ]; then echo "REPO DIRTY, refusing"; exit 2; fi
   git -C /repo apply $d/patch.diff || { echo "$n: patch does not apply"; continue; }
-  ./check $prop > $d/check.out 2>&1; rc=$?
+  H2VC_EVIDENCE_DIR=$d ./check $prop > $d/check.out 2>&1; rc=$?
   git -C /repo checkout -- .
   nv=$(grep -c "^VIOLATION" $d/check.out)
   echo "$n: exit=$rc violations=$nv $(grep -m3 'failed obligation\|missing obligation\|shape' $d/check.out | tr '\n' ' ' | cut -c1-300)"
